@@ -24,6 +24,7 @@ RULE = ("One evaluation = one seeded two-client execution (Deferred and "
         "event-log digests among non-trivial runs.")
 RULE += (' The i-th message event must carry the i-th message the peer sent (prefix oracle).')
 RULE += (' Observations (primary and extra get_*() Deferreds) are placed in one order: one of a later event never fires while one of an earlier event requested before it is still pending; some configurations use pipelined get_message() readers.')
+RULE += (' No value is handed over after the closed notification; a ninth configuration closes early (error verdicts) with get_*() calls around close().')
 LEVEL_TEXT = ("Seeded exploration; per-side automaton code<key<verifier<"
               "(versions|message)*<closed with once-only counters, versions-"
               "before-messages only in order-preserving-server configurations; "
